@@ -193,9 +193,15 @@ def run(fx, tier):
     from c17 import encoder_schema_rules
     v.rule('R-SCHEMA', 'wire schema of encode_subscribe / encode_unsubscribe vs the MQTT 5 packet table (field order, kinds, sources, flag bits, Remaining Length)')
     encoder_schema_rules(fx, v, 'C14', only=('encode_subscribe', 'encode_unsubscribe'))
-    from c01 import fast_reply_rules
+    from c01 import fast_reply_rules, public_call_arguments_rule
+    public_call_arguments_rule(fx, v, 'C14', ('async_subscribe', 'async_unsubscribe'))
     v.rule('R-DOM', 'early acknowledgements parked in the replies registry are purged before every stream write, stored only by dispatch(), used at most once')
     fast_reply_rules(fx, v, 'C14')
+    # which reason codes count as admissible decides the verdict handed to the caller (shared with C20)
+    from c20 import table_rows_rule
+    if 'R-TABLE' not in v.rules:
+        v.rule('R-TABLE', 'reason-code tables of the packets this property handles equal the MQTT 5 tables')
+    table_rows_rule(fx, v, 'C14', ('suback', 'unsuback'))
     v.expect_min('R-DOM', 8, 'fast-reply discipline')
     v.expect_min('R-CGRAPH', 10, 'success-capable completions of both siblings × TUs')
     v.expect_min('R-FLOW', 80, 'provenance sites')
